@@ -52,6 +52,19 @@ PROPS = {
                      "2Q quotas are taken as data here (C08 ties them to the ratios)",
                      "W-TinyLFU: the Bloom geometry is data validated by bloom_geometry_ok on every instance"],
     ),
+    "C02": dict(
+        level_text="Coq refinement theorems for all five caches against the unbounded-map specification (put stores; a write through a handed-out mutable reference stores; remove, purge and a reported eviction release): for every accepted configuration and every history over the Cache trait the run never panics and the retained entries (resident and ghost) are a sub-map of the specification map, so a lookup can only return the most recently stored value and a released key is never reported; get, get_mut, peek, peek_mut and contains are proved to agree in every state. Hasher- and Borrow-independence are carried by the correspondence run: every lookup of the harness goes through a borrowed key type, under two RandomState seeds, identity, FNV and a constant hasher, and all must equal the single hasher-free model.",
+        props_files=["C02"],
+        theorems={"C02": ["C02_spec_step_def", "C02_lru_history", "C02_slru_history", "C02_twoq_history", "C02_arc_history",
+                          "C02_wtiny_history", "C02_slru_step", "C02_twoq_step", "C02_arc_step", "C02_wtiny_step",
+                          "C02_never_wrong", "C02_released_not_reported", "C02_lookup_is_retained", "C02_lookups_agree"]},
+        slices=dict(quick=lru_slices(1500, 150, 2, 100000) + comp_slices(2500, 150, 1200),
+                    thorough=lru_slices(30000, 400, 3, 1000000) + comp_slices(40000, 400, 20000)),
+        corpus=ALL_CORPUS,
+        monitors=["mon_c02"],
+        partial="keys are drop-tracked integers looked up through a distinct borrowed type (Borrow<KQ> for TKey); heap-owning String keys looked up via &str are not exercised",
+        assumptions=["std HashMap / hashbrown implement a finite map under every BuildHasher (checked only through the five hashers of the harness)"],
+    ),
     "C05": dict(
         level_text="Coq theorems: in the models every unwrap(), index and overflow-checked addition of the library is an explicit Panic value; for SegmentedCache, TwoQueueCache, AdaptiveCache and WTinyLFUCache every operation of every reachable state returns Ok (induction over histories with the C01 invariants), RawLRU's step is total by construction, TinyLFU's increment/estimate/contains/compare/reset/clear return Ok for every 64-bit hash on every estimator the constructor builds (both sketch variants), and the sketch/sample-size validation of the constructor is proved. The models are tied to /repo by differential execution under catch_unwind, std and no_std builds, overflow checks on.",
         props_files=["C05"],
@@ -102,6 +115,26 @@ PROPS = {
                 "by the correspondence run (every hasher, original dropped right after the clone), not by a theorem",
         assumptions=["the model's states are values; sharing between a clone and its original can only be observed on the "
                      "implementation (structural audit, drop ledger, allocator poison)"],
+    ),
+    "C17": dict(
+        level_text="The models of all five caches contain no hasher, address or hash index: every result is by construction a function of configuration and history. Coq theorems add why the index cannot matter (look-up by key in a duplicate-free index is invariant under permutation of the index; Clone rebuilds from list order for every reachable state). The deciding part is the correspondence: every generated history is executed five times, under two differently seeded RandomStates, identity, FNV and a constant-zero BuildHasher (all keys collide), on RawLRU, SegmentedCache, TwoQueueCache, AdaptiveCache (std build) and WTinyLFUCache (no_std build, whose sketch is deterministic so the verdicts coincide); all five traces must equal the single model trace and each other, call by call (results, callback log, every list).",
+        props_files=["C17"],
+        theorems={"C17": ["C17_lookup_independent_of_index_order", "C17_contains_independent_of_index_order",
+                          "C17_clone_uses_list_order"]},
+        slices=dict(quick=[dict(name="lru-h", slice="lru", args=["--n", 5000, "--len", 120, "--hgroup", 1], shards=8),
+                           dict(name="slru-h", slice="slru", args=["--n", 2500, "--len", 120, "--hgroup", 1], shards=4),
+                           dict(name="twoq-h", slice="twoq", args=["--n", 2500, "--len", 120, "--hgroup", 1], shards=4),
+                           dict(name="arc-h", slice="arc", args=["--n", 2500, "--len", 120, "--hgroup", 1], shards=4),
+                           dict(name="wtiny-h", slice="wtiny", args=["--n", 1500, "--len", 120, "--hgroup", 1], shards=4, features="nostd")],
+                    thorough=[dict(name="lru-h", slice="lru", args=["--n", 100000, "--len", 300, "--hgroup", 1], shards=16),
+                              dict(name="slru-h", slice="slru", args=["--n", 50000, "--len", 300, "--hgroup", 1], shards=8),
+                              dict(name="twoq-h", slice="twoq", args=["--n", 50000, "--len", 300, "--hgroup", 1], shards=8),
+                              dict(name="arc-h", slice="arc", args=["--n", 50000, "--len", 300, "--hgroup", 1], shards=8),
+                              dict(name="wtiny-h", slice="wtiny", args=["--n", 30000, "--len", 300, "--hgroup", 1], shards=8, features="nostd")]),
+        corpus=["lru", "slru", "twoq", "arc"],
+        monitors=["xmon_c17"],
+        partial="independence of allocation addresses is not a theorem (no heap model yet): it is covered only in that the snapshots are address-free and five runs of each history, whose allocations differ, must coincide",
+        assumptions=["the five BuildHashers of the harness stand for 'every hasher'; a hasher that panics or is not a function is C18's subject"],
     ),
     "C20": dict(
         level_text='Coq theorems over an executable model of SampledLFU: after every sequence of increment (also on a tracked key), update, remove, clear, update_max_cost, room_left(c) = max_cost - sum of recorded costs - c; update/remove report exactly whether the key was tracked and its cost; fill_sample returns its input followed by distinct tracked pairs up to the sample size, for every hash-map iteration order. Tied to /repo by differential execution.',
@@ -193,6 +226,23 @@ PROPS = {
         monitors=["mon_c13"],
         assumptions=["the snapshot (all lists through the verif-hooks accessors, ARC's p, the estimator's bytes) is the "
                      "whole state later results depend on; Debug formatting exists only for RawLRU and TwoQueueCache"],
+    ),
+    "C14": dict(
+        level_text="Coq theorems over the iterator model (a remaining-entries list consumed from both ends; all ten iterator types are this machine with a projection), for every list - hence every reachable state, empty and single-entry lists included - and every interleaving of next / next_back of any length: the items yielded from the front, the remaining entries and the reversed items yielded from the back always reassemble the original list (each entry exactly once, in order, none skipped); the reported length drops by one per item and is 0 with None; exactly min(requests, len) items are yielded; exhausted iterators stay exhausted; the *_lru variants equal the MRU iterator on the reversed list; writes through mutable iterators never change the order, immutable ones change nothing; clones advance independently. Tied to /repo by differential execution of random next/next_back scripts (with clone, size_hint/len checks) on RawLRU and on every list of 2Q and ARC.",
+        props_files=["C14"],
+        theorems={"C14": ["C14_exactly_once_in_order", "C14_len_exact", "C14_count", "C14_fused", "C14_lru_is_reverse",
+                          "C14_full_traversal", "C14_projections", "C14_mut_keeps_order", "C14_immutable_changes_nothing",
+                          "C14_clone_independent"]},
+        slices=dict(quick=lru_slices(3000, 150, 2, 100000)
+                    + [dict(name="twoq", slice="twoq", args=["--n", 2500, "--len", 150], shards=4),
+                       dict(name="arc", slice="arc", args=["--n", 2500, "--len", 150], shards=4)],
+                    thorough=lru_slices(60000, 400, 3, 1000000)
+                    + [dict(name="twoq", slice="twoq", args=["--n", 40000, "--len", 400], shards=8),
+                       dict(name="arc", slice="arc", args=["--n", 40000, "--len", 400], shards=8)]),
+        corpus=["lru", "twoq", "arc"],
+        monitors=["mon_c14"],
+        partial="the pointer-level clause (the walking iterator never dereferences a sentinel or freed node) needs the heap model and is carried by the correspondence run (structural audit after every call) only",
+        assumptions=["size_hint() == (len, Some(len)) and count() are checked by the harness after every step and folded into the reported length"],
     ),
     "C15": dict(
         level_text='Coq theorems over the RawLRU model: for every reachable state and every operation of the whole API the callback log of the call equals the list of entries that departed (defined independently of the step function from the lists before/after), least-recent first, with their current values; hence exactly once per departing entry, never for an update, a read or a staying entry. Tied to /repo by differential execution with a recording callback through both callback constructors.',
